@@ -57,6 +57,15 @@ def decodeStep (j : Json) : Except String Step := do
 def decodeTLS (j : Json) : Except String TLS := do
   pure { cert := ← optNat j "cert", ca := ← optNat j "ca", requestClientCert := ← J.getBool j "auth" }
 
+def decodeTLSArr (j : Json) : Except String TLS := do
+  match (← j.getArr?).toList with
+  | [c, a, r] =>
+    let ci ← c.getInt?
+    let ai ← a.getInt?
+    pure { cert := if ci < 0 then none else some ci.toNat, ca := if ai < 0 then none else some ai.toNat,
+           requestClientCert := ← r.getBool? }
+  | _ => throw "tls triple expected"
+
 def encTLS (t : TLS) : Json := Json.arr #[encOptNat t.cert, encOptNat t.ca, J.bool t.requestClientCert]
 
 def dedup : List Str → List Str → List Str
@@ -114,7 +123,7 @@ def doRun (a : Json) : Except String Json := do
       let (w', out) := w.step lower s
       let m := w.mgr
       let m' := w'.mgr
-      let (admit, why) : Bool × String := match s with
+      let (admitted, why) : Bool × String := match s with
         | .set n sp => (pluginAdmits lower w.lister n sp, if unchangedB m m' then "" else "lister-write-changed")
         | .unset _ => (true, if unchangedB m m' then "" else "lister-write-changed")
         | .sync n =>
@@ -122,7 +131,7 @@ def doRun (a : Json) : Except String Json := do
       let j := J.obj [
         ("out", Json.str (match out with | some o => o.toString | none => "")),
         ("requeue", J.bool (out.map (·.requeue) |>.getD false)),
-        ("admit", J.bool admit),
+        ("admitted", J.bool admitted),
         ("state", encState lower m'),
         ("get", Json.arr (env.probes.map fun h => ptrOf (m'.get lower h)).toArray),
         ("req", Json.arr (env.probes.map fun h => ptrOf (resolve lower m' h)).toArray),
@@ -151,7 +160,7 @@ def doJudge (a : Json) : Except String Json := do
     | (s, o, st) :: rest => do
       let m' ← decodeState (← J.getObj o "state")
       let requeue ← J.getBool o "requeue"
-      let tls ← (← J.getArr o "tls").toList.mapM decodeTLS
+      let tls ← (← J.getArr o "tls").toList.mapM decodeTLSArr
       let verify ← (← J.getArr o "verify").toList.mapM fun v => do
         let i ← v.getInt?
         pure (if i < 0 then none else some i.toNat)
